@@ -145,13 +145,20 @@ impl BlobTree {
         std::fs::create_dir_all(&blobs_folder)?;
         fsync_directory(&blobs_folder)?;
 
-        let blob_file_id_to_continue_with = index
-            .current_version()
-            .blob_files
-            .list_ids()
-            .max()
-            .map(|x| x + 1)
-            .unwrap_or_default();
+        // NOTE: The fragmentation stats may still mention blob files that were already
+        // dropped from the version (e.g. by drop_range), so their IDs must not be handed
+        // out again, otherwise a new blob file would inherit the garbage stats of a dead one
+        let blob_file_id_to_continue_with = {
+            let version = index.current_version();
+
+            version
+                .blob_files
+                .list_ids()
+                .chain(version.gc_stats().keys())
+                .max()
+                .map(|x| x + 1)
+                .unwrap_or_default()
+        };
 
         index
             .0
